@@ -1,83 +1,11 @@
 import Proofs.Lemmas.HeapObs
 /-
-What a freshly constructed instance can reach: its own new objects and — through `endogenous` / `check` — the
-class-level lists.  Hence what two sibling instances, or an instance and its class, share.
+What a freshly constructed instance can reach: its own new objects only (`endogenous` / `check` are copies of the
+class-level lists).  Hence two sibling instances, and an instance and its class, share nothing.
 -/
 set_option linter.unusedSimpArgs false
 set_option linter.unusedVariables false
 namespace Fsic.Heap
-
-theorem us_ne_endogenous (x : String) : "_" ++ x ≠ "endogenous" := by
-  intro h; have := congrArg String.toList h; simp at this
-
-theorem us_ne_check (x : String) : "_" ++ x ≠ "check" := by
-  intro h; have := congrArg String.toList h; simp at this
-
-theorem lookup_allocVars_none (n : Nat) (k : String) (hk : ∀ x, "_" ++ x ≠ k) : ∀ (xs : List String) (h : Heap),
-    (allocVars n xs h).2.lookup k = none := by
-  intro xs
-  induction xs with
-  | nil => intro h; rfl
-  | cons x xs ih =>
-    intro h
-    simp only [allocVars]
-    have := ih (h ++ [cellArray n (.int 0)])
-    generalize allocVars n xs (h ++ [cellArray n (.int 0)]) = r at this
-    obtain ⟨h1, ss⟩ := r
-    simp only at this ⊢
-    have hb : (k == "_" ++ x) = false := by simpa using (hk x).symm
-    simp [List.lookup, hb, this]
-
-theorem stageInterface_lookup_none (cd : ClassDesc) (names : List String) (n : Nat) (h : Heap) (k : String)
-    (hk : ∀ x, "_" ++ x ≠ k)
-    (h1 : k ≠ "dtype") (h2 : k ≠ "_status") (h3 : k ≠ "_iterations") (h4 : k ≠ "names") (h5 : k ≠ "lags")
-    (h6 : k ≠ "leads") : (stageInterface cd names n h).2.lookup k = none := by
-  unfold stageInterface
-  by_cases hc : cd.base = .container
-  · simp [hc, List.lookup]
-  · simp only [hc, if_false]
-    have := lookup_allocVars_none n k hk names (h ++ [cellArray n (.str "-"), cellArray n (.int (-1)), strList names])
-    generalize allocVars n names (h ++ [cellArray n (.str "-"), cellArray n (.int (-1)), strList names]) = r at this
-    obtain ⟨hh, ss⟩ := r
-    simp only at this ⊢
-    have b1 : (k == "dtype") = false := by simpa using h1
-    have b2 : (k == "_status") = false := by simpa using h2
-    have b3 : (k == "_iterations") = false := by simpa using h3
-    have b4 : (k == "names") = false := by simpa using h4
-    have b5 : (k == "lags") = false := by simpa using h5
-    have b6 : (k == "leads") = false := by simpa using h6
-    simp [lookup_append, List.lookup, this, b1, b2, b3, b4, b5, b6]
-
-/-- `add_attribute('endogenous', self.ENDOGENOUS)`: the entry *is* the class-level list. -/
-theorem construct_lookup_endogenous (cd : ClassDesc) (h : Heap) (span sub : Val) (hc : cd.base ≠ .container) :
-    (construct false cd h span sub).2.lookup "endogenous" = some (classAttr h cd "ENDOGENOUS") := by
-  unfold construct
-  simp only [thread_snd]
-  have hA : (stageAlias cd h).2.lookup "endogenous" = none := by
-    unfold stageAlias
-    by_cases ha : cd.alias = true <;> simp [ha, List.lookup]
-  have hL : (stageLinker cd sub).lookup "endogenous" = none := by
-    unfold stageLinker
-    by_cases hl : cd.base = .linker <;> simp [hl, List.lookup]
-  have hI := fun names n h' => stageInterface_lookup_none cd names n h' "endogenous" us_ne_endogenous
-    (by decide) (by decide) (by decide) (by decide) (by decide) (by decide)
-  simp only [List.nil_append, lookup_append, hA, hL, hI]
-  simp [stageContainer, stageModel, hc, List.lookup]
-
-theorem construct_lookup_check (cd : ClassDesc) (h : Heap) (span sub : Val) (hc : cd.base ≠ .container) :
-    (construct false cd h span sub).2.lookup "check" = some (classAttr h cd "CHECK") := by
-  unfold construct
-  simp only [thread_snd]
-  have hA : (stageAlias cd h).2.lookup "check" = none := by
-    unfold stageAlias
-    by_cases ha : cd.alias = true <;> simp [ha, List.lookup]
-  have hL : (stageLinker cd sub).lookup "check" = none := by
-    unfold stageLinker
-    by_cases hl : cd.base = .linker <;> simp [hl, List.lookup]
-  have hI := fun names n h' => stageInterface_lookup_none cd names n h' "check" us_ne_check
-    (by decide) (by decide) (by decide) (by decide) (by decide) (by decide)
-  simp only [List.nil_append, lookup_append, hA, hL, hI]
-  simp [stageContainer, stageModel, hc, List.lookup]
 
 theorem ClassOK.ext {h0 h : Heap} (wf0 : WF h0) (e : Ext h0 h) {cd : ClassDesc} (ok : ClassOK h0 cd) :
     ClassOK h cd := by
@@ -90,83 +18,38 @@ theorem blk_self (h : Heap) : Blk h.length h := by
   intro l o k c hl ho hm
   have := getElem?_lt ho; omega
 
-/-- The class-level list case. -/
-def ClassList (fix : Bool) (cd : ClassDesc) (h : Heap) (x : Nat) : Prop :=
-  fix = false ∧ cd.base ≠ .container ∧
-    (classAttr h cd "ENDOGENOUS" = .ref x ∨ classAttr h cd "CHECK" = .ref x)
-
-theorem ClassList.lt {fix : Bool} {cd : ClassDesc} {h : Heap} (wf : WF h) (ok : ClassOK h cd) {x : Nat}
-    (c : ClassList fix cd h x) : x < h.length := by
-  rcases c.2.2 with h1 | h1
-  · exact classAttr_valid wf ok _ _ h1
-  · exact classAttr_valid wf ok _ _ h1
-
 theorem getElem?_append_self (h : Heap) (o : Obj) : (h ++ [o])[h.length]? = some o := by simp
 
-/-- A new instance (immutable constructor arguments) reaches its own new objects, and nothing older than the
-    constructor call except the two class-level lists. -/
-theorem reach_newInst {fix : Bool} {ci : Nat} {cd : ClassDesc} {h : Heap} {span sub : Val} (wf : WF h)
+/-- A new instance (immutable constructor arguments) reaches its own new objects and nothing older than the
+    constructor call. -/
+theorem reach_newInst {ci : Nat} {cd : ClassDesc} {h : Heap} {span sub : Val} (wf : WF h)
     (ok : ClassOK h cd) (hspan : ∃ i, span = .imm i) (hsub : ∃ i, sub = .imm i) :
-    Ext h (newInst fix ci cd h span sub).1 ∧ WF (newInst fix ci cd h span sub).1 ∧
-    h.length ≤ (newInst fix ci cd h span sub).2 ∧
-    (newInst fix ci cd h span sub).2 < (newInst fix ci cd h span sub).1.length ∧
-    ∀ x, Reach (newInst fix ci cd h span sub).1 (newInst fix ci cd h span sub).2 x →
-      h.length ≤ x ∨ ClassList fix cd h x := by
+    Ext h (newInst ci cd h span sub).1 ∧ WF (newInst ci cd h span sub).1 ∧
+    h.length ≤ (newInst ci cd h span sub).2 ∧
+    (newInst ci cd h span sub).2 < (newInst ci cd h span sub).1.length ∧
+    ∀ x, Reach (newInst ci cd h span sub).1 (newInst ci cd h span sub).2 x → h.length ≤ x := by
   obtain ⟨i1, rfl⟩ := hspan
   obtain ⟨i2, rfl⟩ := hsub
-  have C := construct_ok (b := h.length) wf (Ext.refl h) ok (blk_self h) (Nat.le_refl _) fix (.imm i1) (.imm i2)
+  have C := construct_ok (b := h.length) wf (Ext.refl h) ok (blk_self h) (Nat.le_refl _) (.imm i1) (.imm i2)
     (NewV.imm _ _ _) (NewV.imm _ _ _)
   unfold newInst
-  generalize construct fix cd h (.imm i1) (.imm i2) = r at C
+  generalize construct cd h (.imm i1) (.imm i2) = r at C
   obtain ⟨h1, ss⟩ := r
   simp only at C ⊢
   have Cext : Ext h h1 := C.ext
   have Cblk : Blk h.length h1 := C.blk
-  have Cslots : ∀ k v, (k, v) ∈ ss → NewV h.length h1 v ∨ (fix = false ∧ cd.base ≠ .container ∧
-    ((k = "endogenous" ∧ v = classAttr h cd "ENDOGENOUS") ∨ (k = "check" ∧ v = classAttr h cd "CHECK"))) := C.slots
+  have Cslots : ∀ k v, (k, v) ∈ ss → NewV h.length h1 v := C.slots
   clear C
   have len1 : h.length ≤ h1.length := Cext.len
-  have wf1 : WF (h1 ++ [⟨.inst ci, ss⟩]) := by
-    intro l o k c ho hm
-    simp only [List.length_append, List.length_singleton]
-    by_cases hl : l < h1.length
-    · rw [getElem?_append_lt h1 _ hl] at ho
-      have := wf_of_blk wf Cext Cblk l o k c ho hm
-      omega
-    · have hl' : l = h1.length := by have := getElem?_lt ho; simp at this; omega
-      subst hl'
-      rw [getElem?_append_self] at ho
-      cases ho
-      rcases Cslots k _ hm with h2 | ⟨_, _, h2⟩
-      · have := (h2 c rfl).2; omega
-      · rcases h2 with ⟨_, h3⟩ | ⟨_, h3⟩
-        · have := classAttr_valid wf ok _ _ h3.symm; omega
-        · have := classAttr_valid wf ok _ _ h3.symm; omega
-  refine ⟨Cext.trans (Ext.append _ _), wf1, len1, by simp, ?_⟩
+  have B2 : Blk h.length (h1 ++ [⟨.inst ci, ss⟩]) := by
+    apply Cblk.append
+    intro e he k c hm
+    simp at he; subst he
+    have := Cslots k _ hm c rfl
+    simp; omega
+  refine ⟨Cext.trans (Ext.append _ _), wf_of_blk wf (Cext.trans (Ext.append _ _)) B2, len1, by simp, ?_⟩
   intro x r
-  induction r with
-  | refl => exact Or.inl len1
-  | @step b' c ob k rb hob hm ih =>
-    rcases ih with hb | hb
-    · by_cases hl : b' < h1.length
-      · rw [getElem?_append_lt h1 _ hl] at hob
-        exact Or.inl (Cblk b' ob k c hb hob hm).1
-      · have hl' : b' = h1.length := by have := getElem?_lt hob; simp at this; omega
-        subst hl'
-        rw [getElem?_append_self] at hob
-        cases hob
-        rcases Cslots k _ hm with h2 | ⟨hf, hnc, h2⟩
-        · exact Or.inl (h2 c rfl).1
-        · rcases h2 with ⟨_, h3⟩ | ⟨_, h3⟩
-          · exact Or.inr ⟨hf, hnc, Or.inl h3.symm⟩
-          · exact Or.inr ⟨hf, hnc, Or.inr h3.symm⟩
-    · -- a class-level list holds strings only: nothing is reachable through it
-      have hlt := hb.lt wf ok
-      have hob' : h[b']? = some ob := by
-        rw [← (Cext.trans (Ext.append _ _)).get hlt]; exact hob
-      rcases hb.2.2 with h3 | h3
-      · exact absurd hm (ok.leaf "ENDOGENOUS" ob (by rw [h3]; exact hob') k c)
-      · exact absurd hm (ok.leaf "CHECK" ob (by rw [h3]; exact hob') k c)
+  exact B2.reach len1 r
 
 /-- Reachability from an old root is not affected by extending the heap. -/
 theorem reach_ext_iff {h h1 : Heap} (wf : WF h) (e : Ext h h1) {a : Nat} (ha : a < h.length) (x : Nat) :
@@ -174,59 +57,39 @@ theorem reach_ext_iff {h h1 : Heap} (wf : WF h) (e : Ext h h1) {a : Nat} (ha : a
   have same : ∀ y, Reach h a y → h1[y]? = h[y]? := fun y ry => e.get (reach_lt wf ha ry)
   exact ⟨reach_of_same' same, reach_of_same same⟩
 
-/-- Two instances built one after the other share at most the class-level lists. -/
-theorem siblings_shared {fix : Bool} {ci : Nat} {cd : ClassDesc} {h : Heap} {spanA subA spanB subB : Val}
+/-- Two instances built one after the other share nothing. -/
+theorem siblings_shared {ci : Nat} {cd : ClassDesc} {h : Heap} {spanA subA spanB subB : Val}
     (wf : WF h) (ok : ClassOK h cd) (hA : ∃ i, spanA = .imm i) (hA' : ∃ i, subA = .imm i)
     (hB : ∃ i, spanB = .imm i) (hB' : ∃ i, subB = .imm i) (x : Nat)
-    (ra : Reach (newInst fix ci cd (newInst fix ci cd h spanA subA).1 spanB subB).1
-      (newInst fix ci cd h spanA subA).2 x)
-    (rb : Reach (newInst fix ci cd (newInst fix ci cd h spanA subA).1 spanB subB).1
-      (newInst fix ci cd (newInst fix ci cd h spanA subA).1 spanB subB).2 x) :
-    ClassList fix cd h x := by
-  obtain ⟨eA, wfA, loA, hiA, RA⟩ := reach_newInst (fix := fix) (ci := ci) wf ok hA hA'
-  generalize newInst fix ci cd h spanA subA = pa at *
+    (ra : Reach (newInst ci cd (newInst ci cd h spanA subA).1 spanB subB).1 (newInst ci cd h spanA subA).2 x)
+    (rb : Reach (newInst ci cd (newInst ci cd h spanA subA).1 spanB subB).1
+      (newInst ci cd (newInst ci cd h spanA subA).1 spanB subB).2 x) : False := by
+  obtain ⟨eA, wfA, loA, hiA, RA⟩ := reach_newInst (ci := ci) wf ok hA hA'
+  generalize newInst ci cd h spanA subA = pa at *
   obtain ⟨h1, a⟩ := pa
   simp only at *
   have okA := ok.ext wf eA
-  obtain ⟨eB, wfB, loB, hiB, RB⟩ := reach_newInst (fix := fix) (ci := ci) wfA okA hB hB'
-  generalize newInst fix ci cd h1 spanB subB = pb at *
+  obtain ⟨eB, wfB, loB, hiB, RB⟩ := reach_newInst (ci := ci) wfA okA hB hB'
+  generalize newInst ci cd h1 spanB subB = pb at *
   obtain ⟨h2, b⟩ := pb
   simp only at *
   have ra' := (reach_ext_iff wfA eB hiA x).mp ra
   have xlt := reach_lt wfA hiA ra'
-  have cl : ∀ y, ClassList fix cd h1 y → ClassList fix cd h y := by
-    intro y ⟨c1, c2, c3⟩
-    refine ⟨c1, c2, ?_⟩
-    rwa [classAttr_ext wf eA ok, classAttr_ext wf eA ok] at c3
-  rcases RB x rb with h3 | h3
-  · omega
-  · exact cl x h3
+  have := RB x rb
+  omega
 
-/-- An instance and its class share at most the class-level lists `ENDOGENOUS` / `CHECK`. -/
-theorem instance_class_shared {fix : Bool} {ci : Nat} {cd : ClassDesc} {h : Heap} {span sub : Val}
+/-- An instance and its class share nothing. -/
+theorem instance_class_shared {ci : Nat} {cd : ClassDesc} {h : Heap} {span sub : Val}
     (wf : WF h) (ok : ClassOK h cd) (hA : ∃ i, span = .imm i) (hA' : ∃ i, sub = .imm i) (x : Nat)
-    (ra : Reach (newInst fix ci cd h span sub).1 (newInst fix ci cd h span sub).2 x)
-    (rc : Reach (newInst fix ci cd h span sub).1 cd.attrs x) : ClassList fix cd h x := by
-  obtain ⟨eA, wfA, loA, hiA, RA⟩ := reach_newInst (fix := fix) (ci := ci) wf ok hA hA'
-  generalize newInst fix ci cd h span sub = pa at *
+    (ra : Reach (newInst ci cd h span sub).1 (newInst ci cd h span sub).2 x)
+    (rc : Reach (newInst ci cd h span sub).1 cd.attrs x) : False := by
+  obtain ⟨eA, wfA, loA, hiA, RA⟩ := reach_newInst (ci := ci) wf ok hA hA'
+  generalize newInst ci cd h span sub = pa at *
   obtain ⟨h1, a⟩ := pa
   simp only at *
   have rc' := (reach_ext_iff wf eA ok.valid x).mp rc
   have xlt := reach_lt wf ok.valid rc'
-  rcases RA x ra with h3 | h3
-  · omega
-  · exact h3
-
-/-- `endogenous` of a new model / linker instance leads to the class-level list. -/
-theorem newInst_reaches_endogenous {ci : Nat} {cd : ClassDesc} {h : Heap} {span sub : Val}
-    (hc : cd.base ≠ .container) {e : Nat} (he : classAttr h cd "ENDOGENOUS" = .ref e) :
-    Reach (newInst false ci cd h span sub).1 (newInst false ci cd h span sub).2 e := by
-  have L := construct_lookup_endogenous cd h span sub hc
-  unfold newInst
-  generalize construct false cd h span sub = r at L
-  obtain ⟨h1, ss⟩ := r
-  simp only at L ⊢
-  rw [he] at L
-  exact Reach.single (getElem?_append_self h1 _) (lookup_mem _ _ _ L)
+  have := RA x ra
+  omega
 
 end Fsic.Heap
